@@ -120,6 +120,9 @@ func (fr *frame) prepareCall(call *ssa.CallCommon) (fn Value, args []Value) {
 		if recv.T == nil {
 			fr.w.rtPanic("invalid memory address or nil pointer dereference (method " + call.Method.Name() + " on nil interface)")
 		}
+		if rv, ok := recv.V.(sqlResultVal); ok {
+			return sqlResultMethod{call.Method.Name(), rv.n}, nil
+		}
 		if rt, ok := recv.V.(rtypeVal); ok {
 			return RTypeMethod{call.Method.Name(), rt.T}, nil
 		}
@@ -150,6 +153,8 @@ func (w *Worker) callValue(caller *frame, fn Value, args []Value) Value {
 		return w.call(caller, fn.Fn, args, fn.Env)
 	case *ssa.Builtin:
 		return w.callBuiltin(caller, fn, args)
+	case sqlResultMethod:
+		return TupleV{w.TF.Const(64, uint64(fn.n)), IfaceV{}}
 	case StubMethod:
 		return w.stubResults(fn.Sig, args)
 	case RTypeMethod:
